@@ -326,7 +326,7 @@ def gen_run(seed: int, tier: str, sub: str) -> dict:
     shape = 'free'
     if sub != 'captured':
         shape = {0: 'sweep', 1: 'sweep', 2: 'stampede', 3: 'failure', 4: 'focus', 5: 'boundary', 6: 'failure', 7: 'derive',
-                 9: 'focus'}.get(slot, 'free')
+                 9: 'stampede'}.get(slot, 'free')
     if shape == 'free' and rot % 2 == 0 and sub != 'captured':
         shape = 'chain'
     cfg['shape'] = shape
@@ -345,9 +345,10 @@ def gen_run(seed: int, tier: str, sub: str) -> dict:
         cfg['starve'] = r.choice([0.3, 0.7, 1.0])
         sns = 'lib' if r.random() < 0.2 else 'main'
         amb = [n for n in meta[sns].get('AMBIENT', []) if n in meta[sns]['SIG']]
-        names = rotate(amb, rot, r.randint(1, 2))
-        if sns == 'main' and rot % 2 == 0:
-            names = rotate(m['PINNED'], rot // 2, 1) + names[:1]
+        srot = rot + (1 if slot == 9 else 0)       # the two stampede slots of a decade differ
+        names = rotate(amb, srot, r.randint(1, 2))
+        if sns == 'main' and srot % 2 == 0:
+            names = rotate(m['PINNED'], srot // 2, 1) + names[:1]
         for name in names:
             args = catalogue(sns, name, meta[sns]['SIG'][name])[r.randrange(4)]
             for cname in r.sample(CTX_NAMES, 2):
@@ -415,7 +416,9 @@ def gen_run(seed: int, tier: str, sub: str) -> dict:
         # through a fresh interpreter -- in every thread, same calls, so they also meet concurrently
         cfg['nthreads'] = nthreads = r.choice([1, 2, 2, 3])
         dnames = sorted(n for n in m['DERIVABLE'] if n in m['SIG'])
-        names = [dnames[(3 * rot + q) % len(dnames)] for q in range(3)]
+        # (the two sub-batches start at different places, so that a short batch still covers every function)
+        doff = (8 if sub == 'faults' else 0) + 3 * rot
+        names = [dnames[(doff + q) % len(dnames)] for q in range(3)]
         picks = {name: (catalogue('main', name, m['SIG'][name])[rot % 4], r.choice(CTX_NAMES)) for name in names}
         threads = []
         for t in range(nthreads):
